@@ -745,3 +745,16 @@ MUTATIONS += [
     # the open-pack filter is inverted: only blobs that are already in the open pack get through
     dict(id="C07-open-pack-filter-inverted", prop="C07", file=PKR13, old="                    .filter(|(_, id)| !raw_packer.read().unwrap().has(id))", new="                    .filter(|(_, id)| raw_packer.read().unwrap().has(id))"),
 ]
+
+WU13 = "crates/core/src/repository/warm_up.rs"
+MUTATIONS += [
+    # without a warm-up command nothing is requested even though the backend needs warm-up
+    dict(id="C16-warm-up-only-with-command", prop="C16", file=WU13, old="        } else if repo.be.needs_warm_up() {\n            warm_up_repo(repo, tpe, ids)?;\n        }", new="        } else if repo.be.needs_warm_up() && ids.len() > 1 {\n            warm_up_repo(repo, tpe, ids)?;\n        }"),
+    # warm_up_wait waits without having requested
+    dict(id="C16-warm-up-wait-skips-request", prop="C16", file=WU13, old="    if ids.len() > 0 {\n        warm_up(repo, tpe, ids.clone())?;\n", new="    if ids.len() > 0 {\n        if repo.opts.warm_up_wait_command.is_none() {\n            warm_up(repo, tpe, ids.clone())?;\n        }\n"),
+    # the warm-up loop requests only while the previous request succeeded
+    dict(id="C16-warm-up-loop-stops-at-error", prop="C16", file=WU13, old="                if let Err(err) = backend.warm_up(tpe, &id) {\n                    // FIXME: Use error handling\n                    error!(\"warm-up failed for id {id:?}. {}\", err.display_log());\n                }\n                progress_bar_ref.inc(1);\n            });\n        }", new="                if let Err(err) = backend.warm_up(tpe, &id) {\n                    // FIXME: Use error handling\n                    error!(\"warm-up failed for id {id:?}. {}\", err.display_log());\n                }\n                progress_bar_ref.inc(1);\n            });\n            break;\n        }"),
+]
+HARMLESS += [
+    dict(id="H-C16-warm-up-progress-first", prop="C16", file=WU13, old="                if let Err(err) = backend.warm_up(tpe, &id) {\n                    // FIXME: Use error handling\n                    error!(\"warm-up failed for id {id:?}. {}\", err.display_log());\n                }\n                progress_bar_ref.inc(1);", new="                progress_bar_ref.inc(1);\n                if let Err(err) = backend.warm_up(tpe, &id) {\n                    // FIXME: Use error handling\n                    error!(\"warm-up failed for id {id:?}. {}\", err.display_log());\n                }"),
+]
